@@ -11,7 +11,7 @@ import (
 	. "verifcheck/an"
 )
 
-func init() { Registry["C19"] = c19 }
+func init() { Registry["C19"] = c19; AlwaysWhole["C19"] = true }
 
 var c19Packages = []string{
 	"network/dag", "network/dag/tree", "network/transport/v2", "network/transport/v2/gossip", "network/transport/grpc", "network/transport",
